@@ -38,6 +38,7 @@ def cases(tier, seed):
         for lay in ('given', 'small_first', 'small_last', 'renamed', 'singleton', 'duplicates'):
             out.append(('LFDA/%s/%s' % (dsn, lay), ('lfda', dsn, lay, seed)))
     out.append(('Covariance/singular', ('cov_singular', seed)))
+    out.append(('Covariance/singular_diagonal', ('cov_singular_diag', seed)))
     out.append(('Covariance/ill_conditioned', ('cov_illcond', seed)))
     return out
 
@@ -131,8 +132,14 @@ def run_case(spec):
                 sigs.add(('Covariance', 'illcond', ratio, np.dtype(dt).name))
         return dict(evals=evals, sigs=sigs, viol=viol, headroom=head,
                     sample={'learner': 'Covariance', 'data': 'S3u with feature scales 1, r, 1/r for r in 2^10, 2^14, 2^18'})
-    if kind in ('cov', 'cov_singular'):
-        if kind == 'cov':
+    if kind in ('cov', 'cov_singular', 'cov_singular_diag'):
+        if kind == 'cov_singular_diag':
+            # a covariance that is singular AND exactly diagonal: a two-level factorial design plus a constant feature
+            import itertools
+            F = np.array(list(itertools.product((-1.0, 1.0), repeat=3)))
+            X = np.hstack([np.vstack([F, F * 3.0]), np.full((16, 1), 2.5)])
+            lab = 'factorial design + constant feature'
+        elif kind == 'cov':
             ds = get_ds(spec[1], spec[2])
             X = ds.X.copy()
             lab = spec[1]
@@ -149,8 +156,11 @@ def run_case(spec):
         t = 1e-10 * max(cond, 1.0)
         r = [np.abs(M.dot(C).dot(M) - M).max() / np.abs(M).max(), np.abs(C.dot(M).dot(C) - C).max() / sc,
              np.abs(M - M.T).max() / np.abs(M).max(), np.abs(M.dot(C) - (M.dot(C)).T).max()]
+        if not np.isfinite(M).all():
+            viol.append(V('Covariance.fit', 'not_pseudo_inverse', 'M contains NaN / inf on %s' % lab, [kind]))
+            r = [0.0]
         head['residual'] = max(r) / t
-        if max(r) > t:
+        if not max(r) <= t:
             viol.append(V('Covariance.fit', 'not_pseudo_inverse', 'M violates the Moore-Penrose conditions w.r.t. the sample covariance '
                           '(residuals %s) on %s' % (['%.2g' % x for x in r], lab), [kind]))
         if kind == 'cov' and np.abs(M - np.linalg.inv(C)).max() > t * np.abs(M).max():
@@ -209,10 +219,10 @@ def run_case(spec):
             gap = (wv[k] - wv[k - 1]) / wv[-1] if k < d else 1.0
             r2 = np.abs(M - Mref).max() / np.abs(Mref).max()
             head['residual'] = max(head['residual'], r1 / TOL, (r2 / TOL) if gap > 1e-3 else 0)
-            if r1 > TOL:
+            if not r1 <= TOL:
                 viol.append(V('RCA.fit', 'not_whitening', 'within-chunk covariance of the transformed data differs from the identity by %.3g '
                               '[%s, %s, n_components=%s]' % (r1, dsn, lay, nc), tr))
-            if gap > 1e-3 and r2 > TOL:
+            if gap > 1e-3 and not r2 <= TOL:
                 viol.append(V('RCA.fit', 'wrong_directions', 'M differs from V (V^T C_w V)^-1 V^T for the %d directions of largest total-to-within '
                               'variance ratio by %.3g relative [%s, %s]' % (k, r2, dsn, lay), tr))
             sigs.add(('RCA', dsn, lay, nc))
@@ -258,7 +268,7 @@ def run_case(spec):
                     lams.append(lam)
                     res = np.linalg.norm(Sb.dot(v) - lam * Sw.dot(v)) / max(np.linalg.norm(Sb.dot(v)), 1e-300)
                     head['residual'] = max(head['residual'], res / TOL)
-                    if res > TOL and bad is None:
+                    if not res <= TOL and bad is None:
                         bad = (i, res)
                 lams = np.array(lams)
                 if bad:
@@ -291,6 +301,18 @@ def run_case(spec):
                     Qp, _ = np.linalg.qr(Lp.T)
                     if np.abs(P1 - Qp.dot(Qp.T)).max() > 1e-7:
                         viol.append(V('LFDA.fit', 'orthonormalized', "embedding_type='orthonormalized': span differs from the leading eigenvectors'", tr))
+                    else:
+                        # ... of the eigenvectors IN THEIR ORDER: the first j rows span the j leading eigenvectors (judged where the
+                        # j-th and (j+1)-th eigenvalues are clearly separated)
+                        for j in range(1, dim):
+                            if lams[j - 1] - lams[j] <= 1e-6 * max(lam_all[0], 1e-300):
+                                continue
+                            Qj, _ = np.linalg.qr(Lp[:j].T)
+                            if np.abs(Lo[:j].T.dot(Lo[:j]) - Qj.dot(Qj.T)).max() > 1e-7:
+                                viol.append(V('LFDA.fit', 'orthonormalized', "embedding_type='orthonormalized': the first %d row(s) do not span the %d "
+                                              'leading eigenvector(s) - the rows are not ordered by decreasing eigenvalue [%s, %s, k=%s]'
+                                              % (j, j, dsn, lay, k), tr + ['orthonormalized']))
+                                break
                 sigs.add(('LFDA', dsn, lay, k, nc))
         return dict(evals=evals, sigs=sigs, viol=viol, headroom=head,
                     sample={'learner': 'LFDA', 'dataset': dsn, 'layout': lay, 'labels': y.tolist(), 'k': 'None,1..%d' % (d - 1),
